@@ -14,7 +14,7 @@ use vcommon::tx::ChainState;
 use zlink_core::Connection;
 
 pub const RULE: &str = "cases = histories of 1..40 operations over {enqueue_call, send_call, \
-send_reply, send_error, flush, flush started while the transport does not accept the write and abandoned after 1..3 polls} on one connection; message sizes are aimed with a model of the \
+send_reply, send_error, flush, flush started while the transport does not accept the write and abandoned after 1..3 polls, chain (chain_call + 0..3 append, ended early by a refused call, then sent or dropped unsent)} on one connection; message sizes are aimed with a model of the \
 write buffer (256-byte steps, never shrinks) at: a chosen free space 0..=600 left for the next \
 message, the exact-fit branch, spans of 1..5 growth steps, small and arbitrary sizes; refused \
 messages (bool/float/tuple/option map keys, a Serialize impl that fails, a key that fails after a \
